@@ -82,10 +82,13 @@ var worldTable = map[string]map[string]string{
 	"math/rand": {"Int": "RandInt", "Intn": "RandIntn", "Int63": "RandInt63", "Int63n": "RandInt63n", "Int31": "RandInt31",
 		"Int31n": "RandInt31n", "Uint32": "RandUint32", "Uint64": "RandUint64", "Float64": "RandFloat64", "Seed": "RandSeed",
 		"Perm": "RandPerm", "Shuffle": "RandShuffle", "Read": "RandRead"},
-	"crypto/rand": {"Read": "RandRead"},
-	"runtime":     {"NumCPU": "NumCPU", "GOMAXPROCS": "GOMAXPROCS"},
-	"os/user":     {"Current": "UserCurrent"},
-	"fmt":         {"Print": "Print", "Println": "Println", "Printf": "Printf"},
+	"crypto/rand":           {"Read": "RandRead"},
+	"runtime":               {"NumCPU": "NumCPU", "GOMAXPROCS": "GOMAXPROCS"},
+	"os/signal":             {"Notify": "SignalNotify", "NotifyContext": "SignalNotifyContext", "Stop": "SignalStop", "Ignore": "SignalIgnore", "Reset": "SignalReset"},
+	"syscall":               {"Flock": "Flock"},
+	"golang.org/x/sys/unix": {"Flock": "Flock"},
+	"os/user":               {"Current": "UserCurrent"},
+	"fmt":                   {"Print": "Print", "Println": "Println", "Printf": "Printf"},
 }
 
 // world-ish selectors we do not implement: counted, left alone
